@@ -106,7 +106,7 @@ NOT_APPLICABLE = {
            "exception escapes is decided inside them; only concrete fault enumeration (another technique) can decide it (DESIGN §3 C20)",
 }
 
-PENDING = {f'C{i:02d}': 'check under construction in this build session (see DESIGN.md); not claimed yet' for i in range(1, 18)}
+PENDING = {}   # id -> reason while a check is not built yet (none left)
 
 
 def main():
